@@ -8,6 +8,7 @@ use proto::*;
 
 mod bio;
 mod chan_bundle;
+mod chan_eid;
 mod chan_hex;
 mod chan_now;
 mod chan_ops;
@@ -46,6 +47,11 @@ fn run_line(line: &str) -> String {
         "SCHED" => chan_now::sched(args),
         "VALIDATE" => chan_ops::validate(args),
         "OPS" => chan_ops::ops(args),
+        "EID" => chan_eid::eid(args),
+        "EIDDTN" => chan_eid::eiddtn(args),
+        "EIDIPN" => chan_eid::eidipn(args),
+        "EIDNEW" => chan_eid::eidnew(args),
+        "EIDCBOR" => chan_eid::eidcbor(args),
         "DEC" => chan_bundle::dec(args),
         "ENC" => chan_bundle::enc(args),
         "CRCV" => chan_bundle::crcv(args),
